@@ -23,7 +23,8 @@ struct MaxStat { double max = 0; long n = 0; std::string where; };
 static std::map<std::string, MaxStat> g_ratio;     // "<sol>|<ev>|<prec>" -> max |lib-ref|/(u e)
 static std::map<std::string, MaxStat> g_dl;        // double vs long double
 static std::map<std::string, MaxStat> g_ratio_irr; // same as g_ratio, structured inputs
-static long g_ref_nonfinite = 0, g_loose_overflow = 0;
+static long g_ref_nonfinite = 0, g_loose_overflow = 0, g_worker_calls = 0;
+static FpEnv g_fpenv0;
 static long g_fd = 0, g_fd_inconclusive = 0; static bool fd_check = true;
 static long g_cbchecks = 0, g_invchecks = 0;
 static long g_cmp = 0, g_skipped_branch = 0, g_nonfinite = 0, g_known = 0, g_dlcmp = 0, g_badidx = 0;
@@ -82,7 +83,10 @@ static void run_solution(const orc::Sol& sol, const SolSpec& spec, uint64_t seed
     int kind = 0;
     // ... | pair shift (two parameters moved by +d and -d, d a small integer: a change that leaves every sum of parameters unchanged;
     // always tried right after a default case, where all values are round numbers and the shift is exact)
-    if (setv.size() == names.size()) { int m = r.below(17); kind = m < 7 ? 0 : m < 11 ? 1 : m < 12 ? 2 : m < 14 ? 3 : m < 16 ? 4 : 5; if (prev_kind == 2 && r.coin()) kind = 5; }
+    if (setv.size() == names.size()) { int m = r.below(17); kind = m < 7 ? 0 : m < 11 ? 1 : m < 12 ? 2 : m < 14 ? 3 : m < 16 ? 4 : 5; if (prev_kind == 2 && r.coin()) kind = 5;
+      // ... | magic (one sign-free parameter set to a value the library uses as an in-band code: -20 'unknown name', -12345.67 'unset', -1.33 'unavailable', -1)
+      // | storm (a long run of redundant writes so that the total number of writes since the last evaluation is exactly 2^8, 2^16 or 2^17)
+      int m2 = r.below(12); if (m2 == 0) kind = 6; else if (m2 == 1) kind = 7; }
     if (kind == 3 && defv.empty()) kind = 1;
     if (kind == 4 && !sol.stretch) kind = 0;
     std::vector<std::pair<std::string, long double>> changes;
@@ -124,6 +128,32 @@ static void run_solution(const orc::Sol& sol, const SolSpec& spec, uint64_t seed
                     JObj().str("solution", sol.name).str("parameter", n).num("after_init", defv[n]).num("after_init_param", (long double)v).done());
       }
       LOG.count("default_parameter_cases(masa_init_param)", 1);
+    } else if (kind == 6) {
+      orc::Draw dr;
+      sol.draw(r, dr, names);
+      std::vector<std::string> el;
+      auto ok = sol.special_ok ? sol.special_ok : orc::default_special_ok;
+      for (auto& n : names) if (ok(n) == 2 || (orc::delta_kind_of(sol, n) == 1 && dr.v[n] < 0)) el.push_back(n);   // negative values occur: the sign is free
+      if (!el.empty()) {
+        static const long double MAGIC[] = {-20.0L, -12345.67L, -1.33L, -1.0L, -12345.670000001L, 20.0L};
+        changes.push_back({el[(size_t)r.below((int)el.size())], MAGIC[r.below(6)]});
+        LOG.count("magic_value_cases", 1);
+      }
+    } else if (kind == 7) {
+      // storm: handled below (after the ordinary change of one parameter has been chosen)
+      orc::Draw dr;
+      sol.draw(r, dr, names);
+      for (int tries = 0; tries < 8 && changes.empty(); tries++) {
+        const std::string& n = names[(size_t)r.below((int)names.size())];
+        if (orc::delta_kind_of(sol, n) == 1) changes.push_back({n, dr.v[n]});
+      }
+      static const long TOTAL[] = {256, 65536, 65536, 131072};
+      long total = TOTAL[r.below(4)] - (long)changes.size();
+      const std::string& sn = names[(size_t)r.below((int)names.size())];
+      S cur = (S)setv[sn];
+      set_ctx("storm:" + sol.name, std::to_string(total) + " redundant masa_set_param<" + P + "> calls");
+      for (long k = 0; k < total; k++) masa_set_param<S>(sn, cur);
+      LOG.count("write_storm_cases", 1); LOG.count("redundant_parameter_writes", total);
     } else if (kind == 5) {
       std::vector<std::string> el;
       for (auto& n : names) if (orc::delta_kind_of(sol, n) == 1 && fabsl(setv[n]) >= 4) el.push_back(n);
@@ -174,7 +204,7 @@ static void run_solution(const orc::Sol& sol, const SolSpec& spec, uint64_t seed
     if (kind == 0 || kind == 4) LOG.count("fresh_parameter_vectors", 1);
     if (nontrivial && kind == 0) LOG.count("parameter_vectors_all_distinct_nonzero", 1);
     // stretched magnitudes (for as long as any stretched value stays in the vector): judged at the semantic tolerance only; overflow to inf/NaN is counted, not judged
-    if (kind == 4) loose_state = true; else if (kind == 0 || kind == 2) loose_state = false;
+    if (kind == 4 || kind == 6) loose_state = true; else if (kind == 0 || kind == 2) loose_state = false;
     const bool loose = loose_state;
     if (kind == 0) irregular_state = !special.empty(); else if (kind != 4) irregular_state = true;
     const bool irregular_case = irregular_state;
@@ -214,9 +244,16 @@ static void run_solution(const orc::Sol& sol, const SolSpec& spec, uint64_t seed
           // the value must not depend on what errno held on entry (left over from an unrelated libm call anywhere in the process)
           { static const int EN[] = {0, EDOM, ERANGE, EINVAL}; errno = EN[r.below(4)]; }
           CAP.begin();
-          S lib = call_ev<S>(e, a, dir, cb<S>(cbk));
+          S lib;
+          // one call in sixteen from a persistent second thread (never concurrently): per-thread state in the library would show
+          if (r.below(16) == 0) { WORKER.run([&] { lib = call_ev<S>(e, a, dir, cb<S>(cbk)); }); g_worker_calls++; }
+          else lib = call_ev<S>(e, a, dir, cb<S>(cbk));
           std::string out = CAP.end();
           g_cmp++;
+          // the call leaves the floating-point environment as it found it (rounding mode, flush-to-zero / denormals-are-zero, exception masks)
+          { FpEnv now = fpenv_now(); if (!(now == g_fpenv0)) { viol_once("C09", "floating-point-environment-changed:" + sol.name + ":" + e.id, "an evaluator call changed the floating-point environment from " + g_fpenv0.str() + " to " + now.str(),
+                JObj().str("solution", sol.name).str("evaluator", rid).str("before", g_fpenv0.str()).str("after", now.str()).done());
+              viol_once(sol.prop, "floating-point-environment-changed:" + sol.name + ":" + e.id, "an evaluator call changed the floating-point environment from " + g_fpenv0.str() + " to " + now.str(), "{}"); g_fpenv0 = now; } }
           libvals[rid] = (long double)lib;
           if (e.kind == KF && spec.prov.count("exact_t/S1")) {
             // C06: the caller-supplied K_eq is evaluated exactly once, at the exact temperature the API returns
@@ -326,9 +363,10 @@ static void run_solution(const orc::Sol& sol, const SolSpec& spec, uint64_t seed
         }
         // C07: direction index outside 1..dimension -> error value, independent of the point
         if (e.kind == KI && classes.count("grad") && pt < 4) {
-          static const int BAD[] = {0, -1, -2, -3, INT32_MIN, INT32_MAX};
+          // also indices that equal a valid one modulo 2^8 / 2^16 / 2^24 (an index narrowed to a smaller integer type)
+          static const int BAD[] = {0, -1, -2, -3, INT32_MIN, INT32_MAX, 257, 258, 259, -255, -254, -253, 65537, 65538, 65539, -65535, 16777217, 16777218, INT32_MIN + 1, INT32_MIN + 2, INT32_MIN + 3};
           int nd = spec.dim >= 4 ? 3 : spec.dim;
-          int bad[9]; int nb = 0;
+          int bad[32]; int nb = 0;
           for (int b : BAD) bad[nb++] = b;
           bad[nb++] = nd + 1; bad[nb++] = nd + 2; bad[nb++] = nd + 3;
           for (int k = 0; k < nb; k++) {
@@ -369,6 +407,7 @@ int main(int argc, char** argv) {
   LOG.open(getarg(argc, argv, "--out"));
   CAP.install();
   install_crash_handlers();
+  g_fpenv0 = fpenv_now();
   uint64_t seed = strtoull(getarg(argc, argv, "--seed", "1").c_str(), 0, 10);
   long case0 = atol(getarg(argc, argv, "--case0", "0").c_str());
   long ncases = atol(getarg(argc, argv, "--cases", "10").c_str());
@@ -409,6 +448,7 @@ int main(int argc, char** argv) {
   LOG.count("skipped_near_branch", g_skipped_branch);
   LOG.count("skipped_reference_not_finite", g_ref_nonfinite);
   LOG.count("skipped_overflow_in_stretched_case", g_loose_overflow);
+  LOG.count("evaluator_calls_made_from_a_second_thread", g_worker_calls);
   LOG.count("nonfinite", g_nonfinite);
   LOG.count("matched_known_deviation", g_known);
   for (auto& kv : g_ratio) LOG.stat("ratio", JObj().str("k", kv.first).num("max", kv.second.max).num("n", kv.second.n).done());
